@@ -1,7 +1,7 @@
 """C01 — hostile server responses never crash or hang a query."""
 import random
 import vlib, netcases
-from props import netprops
+from props import netprops, dispatch_cases
 
 LEVEL = "proof"
 RULE = ("for every modelled entry family: SPEC-generated valid scripts, 3-8 structured mutations of each (truncate at any "
@@ -19,6 +19,33 @@ def big(rnd, base):
     fill = rnd.choice([b"\x00", b"\xff", b"A", b"\x80", b"\xfe\xff\xff\xff"])
     pad = (fill * (n // len(fill) + 1))[:n]
     return (base + pad) if rnd.random() < 0.6 else pad
+
+
+def dispatch_lines(rep, cases, rnd, tier, seed):
+    """the same hostile streams through the generic definition-driven dispatch (theorem C01_dispatch): every third case of
+    every family that is an arm of games/query.rs, re-targeted at one game of that arm; the Valve arm from scripts generated
+    for three games' engines and settings"""
+    out = []
+    for i, line in enumerate(cases):
+        toks = line.split(" ")
+        fam = toks[1] if len(toks) > 1 else ""
+        if i % 3 or fam not in dispatch_cases.ARMS or fam not in netprops.FAMILIES:
+            continue
+        try:
+            c = netcases.Case(line, netprops.FAMILIES[fam]["nargs"])
+            d = dispatch_cases.retarget(fam, c, f"{c.id}d", i // 3)
+        except (ValueError, IndexError, KeyError):
+            d = None
+        if d:
+            out.append(d)
+            rep.count("dispatch-arm:" + fam)
+    for k, (game, default, c0) in enumerate(dispatch_cases.valve_lines(seed + 1, 40 if tier == "quick" else 600)):
+        out.append(dispatch_cases.retarget_valve(game, default, c0, f"{game}_{k}d", k))
+        for j in range(3):
+            c, _ = netcases.mutate(c0, rnd)
+            out.append(dispatch_cases.retarget_valve(game, default, c, f"{game}_{k}d{j}", k + j))
+        rep.count("dispatch-arm:valve")
+    return out
 
 
 def run(rep, tier, seed, replay=None):
@@ -59,5 +86,6 @@ def run(rep, tier, seed, replay=None):
                                                  for _ in range(rnd.randrange(0, 65)))]) for _ in range(rnd.randrange(0, 6))]]
             rep.count("mutation:garbage-script")
             cases.append(c.line(f"{fam}g{k}"))
+    cases += dispatch_lines(rep, cases, rnd, tier, seed)
     vlib.correspond(rep, cases, oracle=netprops.crash_oracle, trivial=netprops.trivial, tag="c01")
-    rep.extra_cov["entry_families_under_theorem"] = sorted(netprops.FAMILIES)
+    rep.extra_cov["entry_families_under_theorem"] = sorted(netprops.FAMILIES) + ["dispatch"]
